@@ -207,8 +207,15 @@ func (d *Decoder) decodeSet(mem MemCache, msg *Message) error {
 		} else {
 			// Data set
 			var data []DecodedField
+			recordStart := d.reader.ReadCount()
 			if data, err = d.decodeData(tr); err == nil {
-				msg.DataSets = append(msg.DataSets, data)
+				if d.reader.ReadCount() == recordStart {
+					// a record that occupies no octets can not be delimited: stop instead of looping forever
+					err = nonfatalError{fmt.Errorf("%s ipfix template id# %d describes zero-length records",
+						d.raddr.String(), setHeader.SetID)}
+				} else {
+					msg.DataSets = append(msg.DataSets, data)
+				}
 			} else {
 				switch err.(type) {
 				case nonfatalError:
